@@ -89,6 +89,11 @@ def cases():
         lambda e: e.apply2("(Q:center,P:center)->(Q:center,P:left)", [e.l], [("Y", "X")], {"P": (1, 0)}))
     add("ufunc:2axes-second-input-partly-on-wrong-position", "grid-ufunc inputs on the wrong positions",
         lambda e: e.apply2("(P:center,Q:center),(P:center,Q:center)->(P:left,Q:center)", [e.c, e.l], [("X", "Y"), ("X", "Y")], {"P": (1, 0)}))
+    # an unknown boundary word on an axis of the call whose own width is zero while another axis IS padded
+    add("ufunc:unknown-boundary-word-on-the-unpadded-axis", "unknown boundary word",
+        lambda e: e.apply2b("(P:center,Q:center)->(P:left,Q:center)", [e.c], [("X", "Y")], {"P": (1, 0), "Q": (0, 0)}, {"X": "fill", "Y": "bogus"}))
+    add("ufunc:valid-2axes-one-unpadded", "base",
+        lambda e: e.apply2b("(P:center,Q:center)->(P:left,Q:center)", [e.c], [("X", "Y")], {"P": (1, 0), "Q": (0, 0)}, {"X": "fill", "Y": "extend"}), True)
     add("ufunc:position-absent-on-axis", "grid-ufunc inputs on the wrong positions", lambda e: e.apply("(Q:center)->(Q:inner)", [e.cy], [("Y",)], None))
     add("ufunc:too-many-inputs", "grid-ufunc inputs in the wrong number", lambda e: e.apply("(Q:center)->(Q:left)", [e.c, e.c], [("X",), ("X",)], None))
     add("ufunc:too-few-inputs", "grid-ufunc inputs in the wrong number", lambda e: e.apply("(Q:center),(Q:left)->(Q:left)", [e.c], [("X",)], None))
@@ -146,6 +151,10 @@ class Env:
     def apply2(self, sig, args, axis, bw):
         f = self.w.userfunc("F2", lambda arrs: [list(arrs[0].shape[:-2]) + [self.dims["x_l"], self.dims["y_c"]]])
         return self.g.apply_as_grid_ufunc(f, *args, axis=axis, signature=sig, boundary_width=bw, boundary="extend")
+
+    def apply2b(self, sig, args, axis, bw, boundary):
+        f = self.w.userfunc("F2", lambda arrs: [list(arrs[0].shape[:-2]) + [self.dims["x_l"], self.dims["y_c"]]])
+        return self.g.apply_as_grid_ufunc(f, *args, axis=axis, signature=sig, boundary_width=bw, boundary=boundary)
 
     def transform(self, method, axis="Z", td="center", periodic=False, bins="mono"):
         import numpy as np
